@@ -14,7 +14,8 @@ CONSTANTS MaxDepth, DumpCases
 
 Kinds == {"fn", "mod", "trait-self", "static-di", "dyn-async-trait"}
 \* bounds: how many bounds the dependency parameter of each function declares (1: `&impl Next`, 2: `&(impl Next + Marker)`)
-Progs == [kind : Kinds, depth : 1..MaxDepth, async : BOOLEAN, work : 0..1, bounds : 1..2]
+\* ret: what every function / method of the chain returns: an owned value (u64) or a borrow (&'static str)
+Progs == [kind : Kinds, depth : 1..MaxDepth, async : BOOLEAN, work : 0..1, bounds : 1..2, ret : {"value", "ref"}]
 WellFormed(p) == (p.kind = "dyn-async-trait" => p.async)
 Static(p) == p.kind # "dyn-async-trait"
 \* Level 2: allocations added by one generated delegation hop.  Hop k (1-based) of a chain of depth d enters
